@@ -72,9 +72,11 @@ MState(e, T) == /\ MSock(e, T) /\ MPair(e, T) /\ MChs(e, T) /\ MChr(e, T)
                 /\ MBuf(e, T) /\ MFeof(e, T) /\ MCeof(e, T) /\ MOutb(e, T)
 
 Match(e) ==
-    CASE e.e = "CUT" -> S'.sock.L = e.st.sockL /\ S'.sock.R = e.st.sockR
+    CASE e.e = "CUT" -> /\ (S'.sock.L = "open") = (e.st.sockL = "open")
+                        /\ (S'.sock.R = "open") = (e.st.sockR = "open")
                         /\ S'.lsn = e.st.lsn
       [] e.e = "LSN" -> S'.lsn = "closed"
+      [] e.e \in {"E", "C"} /\ e.late -> TRUE     \* the application's own call
       [] e.e = "DOA" /\ e.first -> MOut(e, S') /\ (e.ok => S'.sock.R = "open")
       [] OTHER -> MOut(e, S') /\ MState(e, S')
 
@@ -109,7 +111,7 @@ TraceInv == /\ RelayFIFO /\ Complete /\ HalfClose /\ Teardown /\ CloseBoth
 \* diagnosis (Strict = FALSE, one trace): evaluated on the state reached after event l-1
 Prev == Traces[tid].ev[l - 1]
 HasSt == l > 1 /\ Prev.e \in {"W", "E", "C", "X", "DOA", "DAO"}
-         /\ ~(Prev.e = "DOA" /\ Prev.first)
+         /\ ~(Prev.e = "DOA" /\ Prev.first) /\ ~(Prev.e \in {"E", "C"} /\ Prev.late)
 DiagSock == HasSt => MSock(Prev, S)
 DiagPair == HasSt => MPair(Prev, S)
 DiagChs  == HasSt => MChs(Prev, S)
@@ -127,5 +129,6 @@ DiagOut == HasSt =>
        [i \in 1..n |-> <<q[Len(q) - n + i].t,
                          Bytes(End(Prev.side), q[Len(q) - n + i].ds)>>] = AsPairs(Prev.out)
 DiagCut == (l > 1 /\ Prev.e = "CUT") =>
-               S.sock.L = Prev.st.sockL /\ S.sock.R = Prev.st.sockR /\ S.lsn = Prev.st.lsn
+               /\ (S.sock.L = "open") = (Prev.st.sockL = "open")
+               /\ (S.sock.R = "open") = (Prev.st.sockR = "open") /\ S.lsn = Prev.st.lsn
 =============================================================================
